@@ -39,9 +39,11 @@ theorem nextQuery_mono (x : Sys) (op : Op) : x.s.nextQuery ≤ (step x op).1.s.n
     simp only [step]; unfold complete
     split <;> exact Nat.le_refl _
   | msg p hs ds bs => simp only [step, incoming_nextQuery]; exact Nat.le_refl _
-  | sending p st =>
-    simp only [step]; unfold sendingChanged
-    split <;> exact Nat.le_refl _
+  | sending p src st =>
+    simp only [step]; unfold sendingChanged setSending
+    split
+    · exact Nat.le_refl _
+    · split <;> exact Nat.le_refl _
   | tick ms => exact Nat.le_refl _
   | drain pref => simp only [step, drain_nextQuery]; exact Nat.le_refl _
   | takeNewBlocks => exact Nat.le_refl _
